@@ -14,8 +14,10 @@ model on that state AND the model with exactly that defect repaired is correct o
 else is a new violation.
 """
 import glob
+import inspect
 import json
 import os
+import traceback
 import numpy as np
 from core import Check, VERIF, enc_list, enc_mat, hx
 import core  # noqa: F401
@@ -24,6 +26,27 @@ import pyx_desugar
 import gemclus.tree._utils as so_mod
 import gemclus.tree.kauri as kauri_mod
 from gemclus.tree import Kauri
+
+class HarnessError(Exception):
+    """A failure of the harness's own instrumentation (never a failure of the property)."""
+
+
+def guarded(name, fn):
+    """Run a stream case; an exception that does not come out of the implementation (no gemclus / desugared-.pyx
+    frame in its traceback) is a bug of the harness: it is filed under `harness-error:*`, and only after the same
+    case, re-run by the caller's plain public API where possible, is known not to raise in the implementation."""
+    def run(chk, i, rng):
+        try:
+            fn(chk, i, rng)
+        except Exception as e:  # noqa
+            tb = traceback.extract_tb(e.__traceback__)
+            in_impl = any(("gemclus" in fr.filename and "/harness/" not in fr.filename) or "(desugared)" in fr.filename for fr in tb)
+            if in_impl and not isinstance(e, HarnessError):
+                raise
+            chk.fail(f"harness-error:{name}:{type(e).__name__}", f"bug in the harness (not in the implementation): {type(e).__name__}: {e}",
+                     {"traceback": traceback.format_exc(limit=8)}, layer="harness")
+    return run
+
 
 KEY_F7 = "kauri:double-star-gain"
 KEY_F8 = "kauri:realloc-second-right"
@@ -408,7 +431,7 @@ def stream_exact(chk, i, rng):
 
 
 # ------------------------------------------------------------------------------------------ whole fits
-def stream_fit(chk, i, rng):
+def gen_fit_case(chk, i, rng):
     quick = chk.tier == "quick"
     n = int(rng.integers(1, 4)) if i % 16 == 15 else int(rng.integers(4, 19 if quick else 30))
     d = int(rng.integers(1, 4))
@@ -434,32 +457,66 @@ def stream_fit(chk, i, rng):
         params["kernel"] = kk
     replay = {"X": [[hx(v) for v in r] for r in X], "params": params, "kernel": kk,
               "precomputed": None if y is None else [[hx(v) for v in r] for r in y]}
-    calls = []
-    orig = kauri_mod.find_best_split
+    return X, y, params, kk, replay, n, d, min_leaf
 
-    def recorder(kernel, Xa, explore, Y, Z, n_clusters, K_max, n_leaves, min_leaf_, feats):
-        sp = orig(kernel, Xa, explore, Y, Z, n_clusters, K_max, n_leaves, min_leaf_, feats)
-        st = State.from_args(np.array(kernel, copy=True), np.array(Xa, copy=True), list(np.asarray(explore).tolist()),
-                             np.array(Y, copy=True), np.array(Z, copy=True), n_clusters, K_max, n_leaves, min_leaf_,
-                             list(np.asarray(feats).tolist()), kind="fit/" + kk)
-        calls.append((st, float(sp.gain), (int(sp.leaf), int(sp.feature), float(sp.threshold), int(sp.left_target), int(sp.right_target))))
+
+def true_kernel(X, y, kk):
+    """The kernel of the data the harness holds NOW, recomputed outside the estimator (sklearn as oracle)."""
+    from sklearn.metrics.pairwise import pairwise_kernels
+    if kk.startswith("precomputed"):
+        return np.ascontiguousarray(y, dtype=np.float64)
+    return np.ascontiguousarray(pairwise_kernels(np.asarray(X, dtype=np.float64), metric=kk), dtype=np.float64)
+
+
+def run_fit_checks(chk, est, X, y, params, kk, replay, n, d, min_leaf, pre="fit"):
+    """One est.fit(X, y) with every search recorded, then the L2/L3 checks of the whole fit against the kernel of
+    the CURRENT data recomputed by the harness.  Returns None if the fit was (legitimately) rejected."""
+    calls = []
+    rec_err = []
+    orig = kauri_mod.find_best_split
+    try:
+        sig = inspect.signature(orig)
+    except (TypeError, ValueError):
+        sig = inspect.signature(lambda kernel, X, leaves_to_explore, Y, Z, n_clusters, K_max, n_leaves, min_leaf, feature_subset: None)
+
+    def recorder(*args, **kwargs):
+        # signature-agnostic: forward unchanged, recover the values by binding against the original's signature
+        sp = orig(*args, **kwargs)
+        try:
+            ba = sig.bind(*args, **kwargs)
+            ba.apply_defaults()
+            a = ba.arguments
+            st = State.from_args(np.array(a["kernel"], copy=True), np.array(a["X"], copy=True),
+                                 list(np.asarray(a["leaves_to_explore"]).tolist()), np.array(a["Y"], copy=True),
+                                 np.array(a["Z"], copy=True), a["n_clusters"], a["K_max"], a["n_leaves"], a["min_leaf"],
+                                 list(np.asarray(a["feature_subset"]).tolist()), kind=pre + "/" + kk)
+            calls.append((st, float(sp.gain), (int(sp.leaf), int(sp.feature), float(sp.threshold), int(sp.left_target), int(sp.right_target))))
+        except Exception:  # noqa  a bug of the recorder must never look like a failure of the implementation
+            rec_err.append(traceback.format_exc(limit=4))
         return sp
     kauri_mod.find_best_split = recorder
     try:
-        est = Kauri(**params)
         try:
             est.fit(X, y)
         except ValueError as e:
             if n < min_leaf or 2 * min_leaf > params["min_samples_split"]:
                 chk.count(None)
-                chk.dist["fit:rejected"] += 1
-                return
+                chk.dist[pre + ":rejected"] += 1
+                return None
             raise
     finally:
         kauri_mod.find_best_split = orig
-    kernel = calls[0][0].kernel if calls else (y if y is not None else None)
-    if kernel is None:
-        kernel = est._compute_kernel(X, y)
+    if rec_err:
+        raise HarnessError("the find_best_split recorder failed: " + rec_err[0])
+    kernel = true_kernel(X, y, kk)
+    stale = False
+    for t, (st_, _, _) in enumerate(calls):
+        if st_.kernel.shape != kernel.shape or not np.allclose(st_.kernel, kernel, rtol=1e-9, atol=1e-9 * (1 + float(np.abs(kernel).max()))) \
+                or not np.array_equal(st_.X, np.asarray(X, dtype=np.float64)):
+            chk.fail(pre + ":kernel-not-of-current-data", f"search {t} of this fit received a kernel / data matrix that is not the one of the array passed to fit "
+                     f"(max |difference| {float(np.abs(st_.kernel - kernel).max()) if st_.kernel.shape == kernel.shape else 'shape'})", dict(replay, call=t), layer="L3")
+            stale = True
+            break
     scale = float(np.abs(kernel).sum())
     tol = 1e-9 * (1.0 + scale)
     known = set()
@@ -467,10 +524,12 @@ def stream_fit(chk, i, rng):
     kinds = []
     # per-call checks on the real states of this fit (both artefacts, L2 + L3)
     for t, (st, g, c) in enumerate(calls):
-        info = check_state(chk, st, "fit", {"fit": replay, "call": t})
+        info = check_state(chk, st, pre, {"fit": replay, "call": t})
         known |= info["known"]
         bad = bad or info["bad"]
         kinds.append(info["kinds"].get("so", "none"))
+    if stale:
+        known = set()          # nothing about this fit may be filed under a known finding
     # the split recorded at call t must be what the loop applied: objective(labels at t+1) - objective(labels at t) = gain_t
     labels_seq = [st.labels() for st, _, _ in calls]
     final = np.asarray(est.labels_)
@@ -486,14 +545,14 @@ def stream_fit(chk, i, rng):
             lab2[idx[st.X[idx, feat] <= thr]] = lt
             lab2[idx[st.X[idx, feat] > thr]] = rt
             if not np.array_equal(lab2, nxt):
-                chk.fail("fit:split-not-applied", f"call {t}: the labelling after the step is not the chosen split {c} applied to the previous labelling", dict(replay, call=t), layer="L3")
+                chk.fail(pre + ":split-not-applied", f"call {t}: the labelling after the step is not the chosen split {c} applied to the previous labelling", dict(replay, call=t), layer="L3")
                 bad = True
             elif abs(inc - g) > tol:
-                for key in (sorted(known) or ["fit:gain-not-increase"]):
+                for key in (sorted(known) or [pre + ":gain-not-increase"]):
                     chk.fail(key, f"call {t}: recorded gain {g} but the objective moved by {inc}", dict(replay, call=t), layer="L3")
                 bad = True
         elif t + 1 < len(calls):
-            chk.fail("fit:continued-without-gain", f"call {t} returned gain {g} <= 0 but the loop went on", dict(replay, call=t), layer="L3")
+            chk.fail(pre + ":continued-without-gain", f"call {t} returned gain {g} <= 0 but the loop went on", dict(replay, call=t), layer="L3")
             bad = True
     # stop rule
     max_leaves = params["max_leaves"] if params["max_leaves"] is not None else n
@@ -512,7 +571,7 @@ def stream_fit(chk, i, rng):
             if depth < max_depth and len(idx) >= params["min_samples_split"]:
                 explorable.append(j)
         if n_leaves_final < max_leaves and explorable:
-            chk.fail("fit:stopped-early", f"the last search returned gain {calls[-1][1]} > 0, {n_leaves_final} < max_leaves={max_leaves} and leaves {explorable} are still explorable, yet fit stopped", replay, layer="L3")
+            chk.fail(pre + ":stopped-early", f"the last search returned gain {calls[-1][1]} > 0, {n_leaves_final} < max_leaves={max_leaves} and leaves {explorable} are still explorable, yet fit stopped", replay, layer="L3")
             bad = True
         chk.dist["stop:structural"] += 1
     elif calls:
@@ -520,9 +579,9 @@ def stream_fit(chk, i, rng):
     else:
         chk.dist["stop:root-not-explorable"] += 1
         if n >= params["min_samples_split"] and max_leaves > 1:
-            chk.fail("fit:never-searched", "fit did not search although the root is explorable", replay, layer="L3")
+            chk.fail(pre + ":never-searched", "fit did not search although the root is explorable", replay, layer="L3")
     if n_leaves_final != 1 + len(gains):
-        chk.fail("fit:leaf-count", f"{n_leaves_final} leaves after {len(gains)} applied splits", replay, layer="L3")
+        chk.fail(pre + ":leaf-count", f"{n_leaves_final} leaves after {len(gains)} applied splits", replay, layer="L3")
     # final score = root score + sum of the recorded gains
     root = float(kernel.sum() / n)
     total = root + sum(gains)
@@ -541,7 +600,7 @@ def stream_fit(chk, i, rng):
         msgs.append(f"root score {root} + gains {sum(gains)} = {total} but the final objective is {s_oracle}")
     if msgs:
         only_tel = all("root score" in m or "tree_.gains" in m for m in msgs)
-        for key in (sorted(known) if (known and only_tel) else ["fit:score-telescoping"]):
+        for key in (sorted(known) if (known and only_tel) else [pre + ":score-telescoping"]):
             chk.fail(key, "; ".join(msgs), replay, layer="L3")
     if "pyx" in IMPLS:
         s_pyx = float(IMPLS["pyx"].gemini_objective(final.astype(np.int64), np.ascontiguousarray(kernel, dtype=np.float64)))
@@ -558,14 +617,70 @@ def stream_fit(chk, i, rng):
         o1 = t.float()
         if abs(o0 - root) > tol or abs(o1 - s_oracle) > tol or any(abs(a - b) > tol for a, b in zip(mg, gains)):
             only_gain = abs(o0 - root) <= tol and abs(o1 - s_oracle) <= tol
-            for key in (sorted(known) if (known and only_gain) else ["fit:model-history"]):
+            for key in (sorted(known) if (known and only_gain) else [pre + ":model-history"]):
                 chk.fail(key, f"model history objective {o0} -> {o1} with gains {mg}; implementation root {root}, final {s_oracle}, gains {gains}", replay)
     chk.traces += 1
-    chk.dist[f"fit:splits={min(len(gains), 6)}"] += 1
-    chk.dist["fit:kernel:" + kk] += 1
-    chk.count(("fit", n, d, params["max_clusters"], min_leaf, kk, len(gains), tuple(sorted(set(kinds)))) if gains else None)
-    chk.sample({"stream": "fit", "n": n, "d": d, "params": {k: v for k, v in params.items()}, "kernel": kk,
+    chk.dist[f"{pre}:splits={min(len(gains), 6)}"] += 1
+    chk.dist[pre + ":kernel:" + kk] += 1
+    chk.count((pre, n, d, params["max_clusters"], min_leaf, kk, len(gains), tuple(sorted(set(kinds)))) if gains else None)
+    chk.sample({"stream": pre, "n": n, "d": d, "params": {k: v for k, v in params.items()}, "kernel": kk,
                 "gains": gains, "kinds": kinds, "root": root, "final": s_oracle}, limit=5)
+    return {"labels": final.copy(), "gains": list(gains), "final": s_oracle, "calls": len(calls), "bad": bad, "known": known}
+
+
+def stream_fit(chk, i, rng):
+    X, y, params, kk, replay, n, d, min_leaf = gen_fit_case(chk, i, rng)
+    run_fit_checks(chk, Kauri(**params), X, y, params, kk, replay, n, d, min_leaf)
+
+
+def stream_refit(chk, i, rng):
+    """ONE estimator fitted twice: fit(X); then the SAME array is modified in place (rows shuffled, rescaled, a column
+    overwritten) or a new array of the same shape is passed; fit again.  Every check of a fit is run on the second
+    fit against the kernel of the current data, the result is compared with a fresh estimator, and score() of an
+    earlier array must still be the objective of that array."""
+    X, y, params, kk, replay, n, d, min_leaf = gen_fit_case(chk, i, rng)
+    if kk.startswith("precomputed"):
+        kk = str(rng.choice(["linear", "rbf", "sigmoid", "laplacian"]))
+        y = None
+        params["kernel"] = kk
+        replay.update(kernel=kk, precomputed=None, params=params)
+    X = np.ascontiguousarray(X, dtype=np.float64)
+    est = Kauri(**params)
+    mode = ["shuffle", "rescale", "column", "new-array", "score-other"][i % 5]
+    replay = dict(replay, refit=mode)
+    first = run_fit_checks(chk, est, X, y, params, kk, replay, n, d, min_leaf, pre="refit-first")
+    if first is None:
+        chk.count(None)
+        return
+    A = X.copy()
+    if mode == "shuffle":
+        rng.shuffle(X)                       # in place, same object
+    elif mode == "rescale":
+        X *= float(rng.choice([0.1, 3.0, -1.0]))
+        X += rng.normal(size=X.shape) * (0.5 if n > 1 else 0.0)
+    elif mode == "column":
+        X[:, int(rng.integers(0, d))] = rng.normal(size=n) * 2
+    else:
+        X = np.ascontiguousarray(rng.normal(size=X.shape) * 2 + 1)
+    replay2 = dict(replay, X_second=[[hx(v) for v in r] for r in X])
+    second = run_fit_checks(chk, est, X, y, params, kk, replay2, n, d, min_leaf, pre="refit")
+    if second is None:
+        chk.count(None)
+        return
+    fresh = Kauri(**params).fit(X.copy())
+    if not np.array_equal(fresh.labels_, second["labels"]) or \
+            len([g for g in fresh.tree_.gains if g]) != len(second["gains"]) or \
+            not np.allclose(sorted(g for g in fresh.tree_.gains if g), sorted(second["gains"]), rtol=1e-9, atol=1e-12):
+        chk.fail("refit:differs-from-fresh", f"after a first fit, fit on the current data gives labels/gains {second['labels'].tolist()} / {second['gains']} "
+                 f"but a fresh estimator with the same parameters gives {fresh.labels_.tolist()} / {[g for g in fresh.tree_.gains if g]}", replay2, layer="L3")
+    # score of another array than the last one fitted (and of the fitted one again) is the objective of THAT array
+    for name, B in (("first array", A), ("current array", X)):
+        KB = true_kernel(B, None, kk)
+        want = objective(np.asarray(est.predict(B)), KB)
+        got = float(est.score(B))
+        if abs(got - want) > 1e-9 * (1 + float(np.abs(KB).sum())):
+            chk.fail("refit:score-of-other-data", f"score({name}) = {got} but the objective of predict({name}) under the kernel of that array is {want}", replay2, layer="L3")
+    chk.dist["refit:" + mode] += 1
 
 
 def stream_corpus(chk, i, rng):
@@ -583,7 +698,7 @@ def stream_corpus(chk, i, rng):
 
 
 STREAMS = {"corpus": (stream_corpus, 8, 8), "states": (stream_states, 1500, 24000), "realloc": (stream_realloc, 2500, 30000),
-           "exact": (stream_exact, 400, 8000), "fit": (stream_fit, 260, 4000)}
+           "exact": (stream_exact, 400, 8000), "fit": (stream_fit, 260, 4000), "refit": (stream_refit, 60, 900)}
 
 
 def main():
@@ -601,13 +716,13 @@ def main():
             check_state(chk, State.from_json(inp["state"]), "replay", exact=inp.get("stream") == "exact")
             chk.cur = None
         elif inp.get("stream") in STREAMS:
-            chk.run_stream(inp["stream"], STREAMS[inp["stream"]][0], 0, only=inp.get("case"))
+            chk.run_stream(inp["stream"], guarded(inp["stream"], STREAMS[inp["stream"]][0]), 0, only=inp.get("case"))
     else:
         for name, (fn, q, th) in STREAMS.items():
             cnt = q if chk.tier == "quick" else th
             if chk.l1_broken and name != "corpus":
                 cnt *= 3
-            chk.run_stream(name, fn, cnt)
+            chk.run_stream(name, guarded(name, fn), cnt)
     chosen = {k: v for k, v in chk.dist.items() if k.startswith("chosen[")}
     if chk.dist.get("so-vs-pyx-disagree"):
         chk.notes.append(f"the compiled gemclus.tree._utils and the desugared _utils.pyx disagree on {chk.dist['so-vs-pyx-disagree']} states: "
